@@ -174,6 +174,12 @@ class XLine:
 
     def __init__(self, k, hash_=None, leg=None, idx=None, label=None, vals=None):
         self.k, self.hash, self.leg, self.idx, self.label, self.vals = k, hash_, leg, idx, label, vals
+        self._memo = {}       # decisions already taken about this line on the current path (the line objects are rebuilt for every path)
+
+    def _d(self, key, term):
+        if key not in self._memo:
+            self._memo[key] = bool(SB(term))
+        return self._memo[key]
 
     @property
     def is_data(self):
@@ -191,19 +197,22 @@ class XLine:
         if prefix == "":
             return True
         if prefix == "#":
-            return SB(self._is_hash())
+            return False if self.is_data else self._d("hash", self.hash)
         if prefix in ("@", "@ ", "@ s"):
             if prefix == "@":
-                return SB(self._is_at())
+                return False if self.is_data else not self._d("hash", self.hash)
             raise Unsupported(f"startswith({prefix!r}): the text after '@' of a non-legend line is not modelled")
         m = _LEG.match(prefix)
         if m:
             if self.is_data:
                 return False
             # decided atom by atom (each a cached unit decision on this path) instead of one fork on the conjunction
-            if bool(SB(self.hash)) or not bool(SB(self.leg)):
+            if self._d("hash", self.hash) or not self._d("leg", self.leg):
                 return False
-            return SB(self.idx == int(m.group(1)))
+            i_ = int(m.group(1))
+            if any(v for k_, v in self._memo.items() if isinstance(k_, tuple) and k_[1] != i_):
+                return False        # already decided to carry another number
+            return self._d(("idx", i_), self.idx == i_)
         if prefix[0] not in "@#":
             if self.is_data and not (prefix[0].isdigit() or prefix[0] in " -+."):
                 return False
@@ -214,18 +223,18 @@ class XLine:
             raise Unsupported("only split('\"') is modelled on an xvg line")
         if self.is_data:
             return ["<data line>\n"]
-        if bool(SB(self.hash)):
+        if self._d("hash", self.hash):
             return [f"# comment {self.k}\n"]
-        if bool(SB(self.leg)):
+        if self._d("leg", self.leg):
             return ["@ s<i> legend ", self.label, "\n"]
         return [f"@ other{self.k} ", f"other{self.k}", "\n"]
 
     # protocol of the read_csv model
     def is_comment(self, ch):
         if ch == "@":
-            return SB(self._is_at())
+            return False if self.is_data else not self._d("hash", self.hash)
         if ch == "#":
-            return SB(self._is_hash())
+            return False if self.is_data else self._d("hash", self.hash)
         raise Unsupported(f"comment character {ch!r}")
 
     def fields(self):
@@ -284,12 +293,15 @@ def xvg_shapes(tier):
     add(13, 0, 0, (0, 13))
     add(14, 1, 0, (0, 13))
     # legend numbers free (any increasing numbers in 0..9): one and two legends, few '#' lines
-    add(13, 1, 1, (0, 1), "increasing")
+    add(13, 1, 1, (6, 7), "increasing")
     add(13, 1, 1, (12, 12), "increasing")
     add(13, 2, 1, (11, 11), "increasing")
     # all ten legends (the upper end of the legend scan)
-    add(13, 10, 1, (0, 1), "increasing")
-    add(14, 10, 1, (2, 4), "increasing")
+    add(13, 10, 1, (2, 3), "increasing")
+    add(14, 10, 1, (3, 4), "increasing")
+    if tier == "thorough":
+        add(13, 10, 1, (0, 1), "increasing")
+        add(13, 1, 1, (0, 1), "increasing")
     if tier == "thorough":
         for hr in ((0, 3), (4, 8), (9, 13)):
             add(15, 2, 2, hr, "increasing")
